@@ -85,7 +85,14 @@ def run_path(interp: Interp, fi, contract):
     n_pre_events = len(ctx.trace)
     fq = fi.fq
     try:
-        result = interp.call_function(fi, [roots[p] for p in params], {})
+        if contract.slice is not None:
+            body = [st for st in fi.node.body if not (isinstance(st, __import__("ast").Expr) and isinstance(st.value, __import__("ast").Constant))]
+            if contract.n_body_statements is not None and len(body) != contract.n_body_statements:
+                raise CheckerError(f"{fq}: the function body has {len(body)} top-level statements, the slicing of its "
+                                   f"contract expects {contract.n_body_statements} (body restructured: re-derive the slices)")
+            result = interp.call_function_slice(fi, [roots[p] for p in params], list(contract.slice[0]) + [contract.slice[1]])
+        else:
+            result = interp.call_function(fi, [roots[p] for p in params], {})
     except RaiseSig as r:
         exc = r.exc
         n = Roots(roots, ctx.trace[n_pre_events:], interp)
@@ -432,15 +439,34 @@ def discharge(ob: Obligation, rlimit=Z3_RLIMIT, use_cvc5=True, light=False):
     return "unsat", backend_used, time.time() - t0, None
 
 
+def _conjuncts(g, depth=0):
+    if z3.is_and(g) and depth < 4:
+        out = []
+        for c in g.children():
+            out += _conjuncts(c, depth + 1)
+        return out
+    return [g]
+
+
 def discharge_batches(obligations, rlimit=1_500_000):
     """Fast path: obligations generated at the same program point share their hypotheses; assert those once in an
     incremental solver and check each goal under push/pop.  Only `unsat` answers are used (sound: same query as
     discharge() without goal splitting); everything else goes through the full pipeline."""
     groups = {}
+    out = {}
     for ob in obligations:
+        # stage 0: every top-level conjunct of the goal is literally one of the hypotheses (an invariant conjunct that
+        # the code did not touch): nothing to solve; otherwise only the remaining conjuncts are kept as the goal
+        t0 = time.time()
+        hyp_ids = {h.get_id() for h in ob.hyps}
+        rest = [g for g in _conjuncts(ob.goal) if g.get_id() not in hyp_ids and not z3.is_true(g)]
+        if not rest:
+            out[id(ob)] = time.time() - t0
+            continue
+        if len(rest) < len(_conjuncts(ob.goal)):
+            ob.goal = z3.And(*rest) if len(rest) > 1 else rest[0]
         key = (ob.path_id, len(ob.hyps), ob.hyps[-1].get_id() if ob.hyps else 0)
         groups.setdefault(key, []).append(ob)
-    out = {}
     for key, obs in groups.items():
         if len(obs) < 3:
             continue
